@@ -776,6 +776,12 @@ func (e *Engine) runPath(it workItem) {
 	e.callSSA(nil, token.NoPos, e.entry, nil, nil)
 	e.drainThreads()
 	if e.cur.replaying() {
+		if debugStack {
+			fmt.Fprintf(os.Stderr, "REPLAY DIVERGENCE cursor=%d prefixlen=%d\n", e.cur.cursor, len(e.cur.prefix))
+			for i, d := range e.cur.prefix {
+				fmt.Fprintf(os.Stderr, "  [%d] taken=%v val=%d conc=%v\n", i, d.Taken, d.Val, d.Conc)
+			}
+		}
 		e.inconclusive("replay divergence: path ended before its decision prefix was consumed")
 	}
 }
